@@ -78,7 +78,7 @@ def gen(shard, tier):
     slots = ['n', 'c'] + list(range(n)) + [f'{i}+' for i in range(n)]
     if tier != 'thorough' and n >= 3:
         slots = ['n', 0, n - 1, f'{n - 1}+']
-    for k in range(0, (d['premod_slots'] if n <= 3 else 1) + 1):   # two pre-modified slots up to length 3
+    for k in range(0, (d['premod_slots'] if n <= 2 else 1) + 1):   # two pre-modified slots up to length 2
         for pre in itertools.combinations(slots, k):
             for nt, ct in (TERM_PAIRS if tier == 'thorough' else TERM_PAIRS_QUICK):
                 if True:
